@@ -129,8 +129,9 @@ def p0_shape(tokens):
 
 
 def interleaved_shape(tokens):
-    """same-time group: -es creates a; later an -es splits i; later -ej a i (a's lineages arrive in i
-    after i was split)"""
+    """same-time group: a population a receives lineages (it is created by an -es, or is the target of
+    an -ej); population i is split by an -es; later -ej a i: a's lineages arrive in i after i was
+    split, but the pulses from_ms writes are those of another order of the group"""
     so = split_options(tokens)
     npop = 1
     for o in so:
@@ -138,19 +139,20 @@ def interleaved_shape(tokens):
             npop = int(o[1])
     evs = sorted([(event_time(o), k, o) for k, o in enumerate(so) if event_time(o) is not None], key=lambda x: x[0])
     n = npop
-    group_t, created_at, split_at = None, {}, {}
+    group_t, received, split = None, set(), set()
     for pos, (t, _, o) in enumerate(evs):
         if t != group_t:
-            group_t, created_at, split_at = t, {}, {}
+            group_t, received, split = t, set(), set()
         try:
             if o[0] == "-es":
                 n += 1
-                created_at[n] = pos
-                split_at.setdefault(int(o[2]), []).append(pos)
+                received.add(n)
+                split.add(int(o[2]))
             elif o[0] == "-ej":
                 a, i = int(o[2]), int(o[3])
-                if a in created_at and any(created_at[a] < p for p in split_at.get(i, [])):
+                if a in received and i in split:
                     return True
+                received.add(i)
         except (ValueError, IndexError):
             return False
     return False
